@@ -221,23 +221,12 @@ func runC17(r *Run, p *Prog) {
 					rb, _ = cs.Instr.(*ssa.Call)
 				}
 			}
-			var cancelDefer *ssa.Defer
-			for _, b := range l.Blocks {
-				for _, in := range b.Instrs {
-					if d, ok := in.(*ssa.Defer); ok {
-						if ex, ok := d.Call.Value.(*ssa.Extract); ok && ex.Index == 1 {
-							if c, ok := ex.Tuple.(*ssa.Call); ok && strings.HasPrefix(calleeName(&c.Call), "context.With") {
-								cancelDefer = d
-							}
-						}
-					}
-				}
+			if rb == nil {
+				r.Unresolved("D5", shortName(l)+": frame read in the connection loop")
+				continue
 			}
-			ok := cancelDefer != nil && rb != nil
-			if ok {
-				ok, _ = everyPathPasses(l, nil, func(i ssa.Instruction) bool { return i == ssa.Instruction(rb) || isReturn(i) }, func(i ssa.Instruction) bool { return i == ssa.Instruction(cancelDefer) })
-			}
-			r.Ob("D5", shortName(l), "per-connection context derived with cancel, cancel deferred before the read loop", l.Pos(), ok, "handler exit does not cancel the per-connection context")
+			ok, why := connCtxCancelOnExit(p, T, cg, l, rb)
+			r.Ob("D5", shortName(l), "per-connection context derived with cancel, cancel deferred before the read loop", l.Pos(), ok, "handler exit does not cancel the per-connection context: "+why)
 		}
 	})
 	// ---- D6
@@ -607,4 +596,88 @@ func pipeTaint(p *Prog) map[ssa.Value]bool {
 		}
 	}
 	return t
+}
+
+// connCtxCancelOnExit: the context under which the connection loop reads frames is derived with a cancel function that is
+// deferred - in the loop function itself or, when the context is handed down as a parameter, in its caller(s) before
+// the call. Returns (ok, derived-context-known, explanation).
+func connCtxCancelOnExit(p *Prog, T *Terms, cg *CallGraph, loopFn *ssa.Function, rb *ssa.Call) (bool, string) {
+	var ctxArg ssa.Value
+	for _, a := range rb.Call.Args {
+		if isNamed(a.Type(), "context", "Context") {
+			ctxArg = a
+		}
+	}
+	if ctxArg == nil {
+		return false, "the frame read has no context argument"
+	}
+	var check func(f *ssa.Function, v ssa.Value, before ssa.Instruction, depth int) (bool, string)
+	check = func(f *ssa.Function, v ssa.Value, before ssa.Instruction, depth int) (bool, string) {
+		if depth > 3 {
+			return false, "context derivation too deep"
+		}
+		// see through spills
+		for i := 0; i < 4; i++ {
+			if u, ok := v.(*ssa.UnOp); ok {
+				if a, ok := T.resolveFree(u.X).(*ssa.Alloc); ok {
+					if val, ok := singleStore(a); ok {
+						v = val
+						continue
+					}
+				}
+			}
+			break
+		}
+		switch x := v.(type) {
+		case *ssa.Extract:
+			c, ok := x.Tuple.(*ssa.Call)
+			if !ok || !strings.HasPrefix(calleeName(&c.Call), "context.With") || x.Index != 0 {
+				return false, "the read context is " + strip(T.T(v))
+			}
+			// its cancel (result #1) is deferred on every path to `before`
+			for _, b := range f.Blocks {
+				for _, in := range b.Instrs {
+					d, ok := in.(*ssa.Defer)
+					if !ok {
+						continue
+					}
+					if ex, ok := d.Call.Value.(*ssa.Extract); ok && ex.Tuple == x.Tuple && ex.Index == 1 {
+						if okp, _ := everyPathPasses(f, nil, func(i ssa.Instruction) bool { return i == before }, func(i ssa.Instruction) bool { return i == ssa.Instruction(d) }); okp {
+							return true, "derived with " + calleeName(&c.Call) + " in " + shortName(f) + ", cancel deferred"
+						}
+					}
+				}
+			}
+			return false, "the cancel function of the derived context is not deferred before the connection is served"
+		case *ssa.Parameter:
+			idx := -1
+			for i, q := range f.Params {
+				if q == x {
+					idx = i
+				}
+			}
+			sites := cg.Callers[f]
+			if len(sites) == 0 || idx < 0 {
+				return false, "the read context is the parameter " + x.Name() + " of " + shortName(f) + " (no caller derives a cancellable context)"
+			}
+			why := ""
+			for _, cs := range sites {
+				if _, isGo := cs.Instr.(*ssa.Go); isGo {
+					return false, "the read context is the context the handler goroutine was started with: nothing cancels it when the connection ends"
+				}
+				args := cs.Common.Args
+				if idx >= len(args) {
+					return false, "call shape not understood"
+				}
+				ok, w := check(cs.Fn, args[idx], cs.Instr, depth+1)
+				if !ok {
+					return false, w
+				}
+				why = w
+			}
+			return true, why
+		}
+		return false, "the read context is " + strip(T.T(v))
+	}
+	return check(loopFn, ctxArg, rb, 0)
 }
